@@ -1,5 +1,6 @@
 import PgFdr.Proofs.C08
 import PgFdr.Proofs.C08Semi
+import PgFdr.Proofs.C08Config
 
 /-!
 # C08 — in-silico digestion yields exactly the peptides the cleavage rule defines
@@ -147,6 +148,304 @@ theorem digest_by_name_set_eq (name : String) (r : EnzymeRule) (hr : lookupEnzym
   | semi => exact semi_digest_set_eq r seq minL maxL mc met hne
   | none => exact ⟨_, rfl, fun x => nonspecific_set_eq r seq minL maxL mc met hmin x⟩
 
+/-! ## The digestion as configured
+
+`PgFdr/Model/C08Config.lean` models the path from a user's configuration to the digestion call:
+`DigestionParams(...)` (`mkParams`), the option lists of the command line with their defaults (`argLists`),
+`get_digestion_params_list` (`paramsList`), the call a parameter object is turned into (`configuredDigest`), the
+per-protein content of `get_peptide_to_protein_map_from_params` (`emissions`, `keysFor`), the iBAQ settings
+(`ibaqParams`) and the output blocks of `digest.main` run on ONE list of parameter objects (`runBlocks`, `cliMain`).
+"The configured bounds" and "the allowed number of enzymatic cleavage sites" of the property text are the values the
+user GAVE; a default stands in only for a value that is absent. -/
+
+/-- "within the configured bounds … at most the allowed number of enzymatic cleavage sites": every argument of
+    `DigestionParams(...)` that is given is the attribute the digestion reads — whatever its value, `0` included —
+    and the default constant is used exactly for an argument that is omitted; `no_enzyme` forces the non-specific
+    mode, `"none"` means no special residues, methionine cleavage is on, hash keys go with the non-specific mode. -/
+theorem params_ctor_fields (a : CtorArgs) :
+    (mkParams a).enzyme = (match a.enzyme with | some e => e | none => enzymeDefault) ∧
+    (mkParams a).minL = (match a.minLength with | some v => v | none => minPeplenDefault) ∧
+    (mkParams a).maxL = (match a.maxLength with | some v => v | none => maxPeplenDefault) ∧
+    (mkParams a).mc = (match a.cleavages with | some v => v | none => cleavagesDefault) ∧
+    (mkParams a).digestion = (if (mkParams a).enzyme = "no_enzyme" then "none"
+                              else match a.digestion with | some d => d | none => digestionDefault) ∧
+    (mkParams a).special = (match a.specialAas with
+                            | some s => if s = "none" then [] else s.toList
+                            | none => if specialAasDefault = "none" then [] else specialAasDefault.toList) ∧
+    (mkParams a).met = true ∧
+    (mkParams a).dbTarget = (match a.containsDecoys with | some b => b | none => false) ∧
+    (mkParams a).useHash = decide ((mkParams a).digestion = "none") := by
+  obtain ⟨e, d, mn, mx, c, s, cd⟩ := a
+  refine ⟨?_, ?_, ?_, ?_, ?_, ?_, rfl, ?_, ?_⟩
+  · cases e <;> rfl
+  · cases mn <;> rfl
+  · cases mx <;> rfl
+  · cases c <;> rfl
+  · cases d <;> simp [mkParams]
+  · cases s <;> simp [mkParams]
+  · cases cd <;> rfl
+  · exact Bool.beq_eq_decide_eq _ _
+
+/-- the falsy-but-valid values: a budget of 0 missed cleavages, a minimum or maximum length of 0 and an empty
+    special-residue string are kept as given (never replaced by the defaults 2 / 7 / 60 / "KR") -/
+theorem params_ctor_zero_kept (a : CtorArgs) :
+    (mkParams { a with cleavages := some 0 }).mc = 0 ∧
+    (mkParams { a with minLength := some 0 }).minL = 0 ∧
+    (mkParams { a with maxLength := some 0 }).maxL = 0 ∧
+    (mkParams { a with specialAas := some "" }).special = [] :=
+  ⟨rfl, rfl, rfl, by simp [mkParams]⟩
+
+/-- the command line: an option that is given is the list `get_digestion_params_list` reads, an absent option is
+    the one-element list of its default constant -/
+theorem arg_lists_defaults (o : CliOpts) :
+    (argLists o).enzyme = (match o.enzyme with | some l => l | none => [enzymeDefault]) ∧
+    (argLists o).digestion = (match o.digestion with | some l => l | none => [digestionDefault]) ∧
+    (argLists o).minLength = (match o.minLength with | some l => l | none => [minPeplenDefault]) ∧
+    (argLists o).maxLength = (match o.maxLength with | some l => l | none => [maxPeplenDefault]) ∧
+    (argLists o).cleavages = (match o.cleavages with | some l => l | none => [cleavagesDefault]) ∧
+    (argLists o).specialAas = (match o.specialAas with | some l => l | none => [specialAasDefault]) ∧
+    (argLists o).containsDecoys = o.containsDecoys := by
+  obtain ⟨e, d, mn, mx, c, s, cd⟩ := o
+  refine ⟨?_, ?_, ?_, ?_, ?_, ?_, rfl⟩
+  · cases e <;> rfl
+  · cases d <;> rfl
+  · cases mn <;> rfl
+  · cases mx <;> rfl
+  · cases c <;> rfl
+  · cases s <;> rfl
+
+/-- `get_digestion_params_list` (broadcast of single values): when it succeeds, every option list has length one or
+    the common length `n`; there are exactly `n` parameter objects and the `i`-th is `DigestionParams` of the `i`-th
+    value of every list with several values and of THE value of every list with one (`pickAt`), all given explicitly -/
+theorem params_list_broadcast (a : ArgLists) (ps : List Params) (h : paramsList a = .ok ps) :
+    (∀ n ∈ nonOneLengths a, n = numParams a) ∧ ps.length = numParams a ∧
+    ∀ i, i < numParams a → ∃ e d mn mx c s,
+      pickAt a.enzyme i = some e ∧ pickAt a.digestion i = some d ∧ pickAt a.minLength i = some mn ∧
+      pickAt a.maxLength i = some mx ∧ pickAt a.cleavages i = some c ∧ pickAt a.specialAas i = some s ∧
+      ps[i]? = some (mkParams { enzyme := some e, digestion := some d, minLength := some mn, maxLength := some mx,
+                                cleavages := some c, specialAas := some s, containsDecoys := some a.containsDecoys }) :=
+  paramsList_ok a ps h
+
+/-- "Raises ValueError if digestion parameters of length > 1 are of unequal length": the only error, and exactly then -/
+theorem params_list_error_iff (a : ArgLists) :
+    (paramsList a = .error .unequalLength ↔ ∃ m ∈ nonOneLengths a, ∃ n ∈ nonOneLengths a, m ≠ n) ∧
+    (∀ e, paramsList a = .error e → e = .unequalLength) := by
+  refine ⟨paramsList_error_iff a, ?_⟩
+  intro e h
+  unfold paramsList at h
+  split at h
+  · cases h
+  · injection h with h; exact h.symm
+
+/-- one value per option (or none): the command line configures ONE parameter object, the one `DigestionParams`
+    builds from the given values with the absent ones omitted — an absent option and an omitted constructor argument
+    fall back to the same constants, and nothing else does -/
+theorem cli_single_values (e d : Option String) (mn mx c : Option Nat) (s : Option String) (cd : Bool) :
+    paramsList (argLists { enzyme := e.map ([·]), digestion := d.map ([·]), minLength := mn.map ([·]),
+                           maxLength := mx.map ([·]), cleavages := c.map ([·]), specialAas := s.map ([·]),
+                           containsDecoys := cd }) =
+      .ok [mkParams { enzyme := e, digestion := d, minLength := mn, maxLength := mx, cleavages := c,
+                      specialAas := s, containsDecoys := some cd }] := by
+  cases e <;> cases d <;> cases mn <;> cases mx <;> cases c <;> cases s <;> rfl
+
+/-- "the set of peptides generated from a protein equals the set of its substrings whose length lies within the
+    configured bounds, whose required termini …, and that span at most the allowed number of enzymatic cleavage
+    sites": the digestion call a parameter object is turned into yields exactly the rule's peptides for the object's
+    enzyme, mode, window, budget and methionine setting -/
+theorem configured_digest_set_eq (p : Params) (r : EnzymeRule) (hr : lookupEnzyme p.enzyme = some r) (seq : Seq)
+    (hne : seq ≠ []) (hmin : 1 ≤ p.minL) :
+    ∃ l, configuredDigest p seq = .ok l ∧
+      ∀ x, x ∈ l ↔ ∃ i j, Valid (modeOf p.digestion) r p.minL p.maxL p.mc p.met seq i j ∧ x = slice seq i j :=
+  digest_by_name_set_eq p.enzyme r hr seq p.minL p.maxL p.mc p.digestion p.met hne hmin
+
+/-- … instantiated with the GIVEN values: `DigestionParams(enzyme, digestion, min_length, max_length, cleavages, …)`
+    digests with exactly `min_length`, `max_length`, `cleavages` (not with a default), methionine cleavage on, in the
+    mode named by `digestion` (non-specific for `no_enzyme`) -/
+theorem configured_digest_given (enzyme digestion : String) (mn mx c : Nat) (special : Option String)
+    (cd : Option Bool) (r : EnzymeRule) (hr : lookupEnzyme enzyme = some r) (seq : Seq) (hne : seq ≠ [])
+    (hmin : 1 ≤ mn) :
+    ∃ l, configuredDigest (mkParams { enzyme := some enzyme, digestion := some digestion, minLength := some mn,
+                                      maxLength := some mx, cleavages := some c, specialAas := special,
+                                      containsDecoys := cd }) seq = .ok l ∧
+      ∀ x, x ∈ l ↔ ∃ i j, Valid (if enzyme = "no_enzyme" then Mode.none else modeOf digestion) r mn mx c true seq i j ∧
+        x = slice seq i j := by
+  let a : CtorArgs := { enzyme := some enzyme, digestion := some digestion, minLength := some mn,
+                        maxLength := some mx, cleavages := some c, specialAas := special, containsDecoys := cd }
+  have h := configured_digest_set_eq (mkParams a) r hr seq hne hmin
+  have hm : modeOf (mkParams a).digestion = (if enzyme = "no_enzyme" then Mode.none else modeOf digestion) := by
+    simp only [a, mkParams, Option.getD_some, beq_iff_eq]
+    split
+    · rfl
+    · rfl
+  rw [hm] at h
+  exact h
+
+/-- "`cleavages = 0`": a configured budget of zero means that no generated peptide spans an enzymatic cleavage
+    site (full and semi-specific digestion), whatever the other settings -/
+theorem configured_budget_zero (enzyme digestion : String) (mn mx : Nat) (special : Option String) (cd : Option Bool)
+    (r : EnzymeRule) (hr : lookupEnzyme enzyme = some r) (seq : Seq) (hne : seq ≠ []) (hmin : 1 ≤ mn)
+    (hmode : (if enzyme = "no_enzyme" then Mode.none else modeOf digestion) ≠ Mode.none)
+    (l : List Seq)
+    (hl : configuredDigest (mkParams { enzyme := some enzyme, digestion := some digestion, minLength := some mn,
+                                       maxLength := some mx, cleavages := some 0, specialAas := special,
+                                       containsDecoys := cd }) seq = .ok l)
+    (x : Seq) (hx : x ∈ l) :
+    ∃ i j, x = slice seq i j ∧ i < j ∧ j ≤ seq.length ∧ ∀ k, i < k → k < j → ¬ Site r seq k := by
+  obtain ⟨l', hl', hiff⟩ := configured_digest_given enzyme digestion mn mx 0 special cd r hr seq hne hmin
+  rw [hl] at hl'
+  injection hl' with hl'
+  subst hl'
+  obtain ⟨i, j, hv, rfl⟩ := (hiff x).mp hx
+  refine ⟨i, j, rfl, hv.lt, hv.le, ?_⟩
+  intro k hik hkj hs
+  have hb := hv.budget hmode
+  have hmem : k ∈ (List.range j).filter (fun x => decide (i < x) && decide (Site r seq x)) := by
+    simp [List.mem_filter, hkj, hik, hs]
+  have hpos : 0 < innerSites r seq i j := List.length_pos_of_mem hmem
+  omega
+
+/-- "the iBAQ criteria (6 <= pepLen <= 30, no miscleavages)": the parameter objects as `get_ibaq_peptide_to_protein_map`
+    rewrites them digest fully specifically, without methionine removal, within `max(6, min_length)` …
+    `min(30, max_length)` and without a cleavage site inside; rewriting twice changes nothing more -/
+theorem ibaq_digest_set_eq (p : Params) (r : EnzymeRule) (hr : lookupEnzyme p.enzyme = some r) (seq : Seq)
+    (hne : seq ≠ []) :
+    (∃ l, configuredDigest (ibaqParams p) seq = .ok l ∧
+      ∀ x, x ∈ l ↔ ∃ i j, Valid .full r (max 6 p.minL) (min 30 p.maxL) 0 false seq i j ∧ x = slice seq i j) ∧
+    ibaqParams (ibaqParams p) = ibaqParams p ∧ (ibaqParams p).useHash = false := by
+  refine ⟨?_, ibaqParams_idem p, rfl⟩
+  have h := configured_digest_set_eq (ibaqParams p) r hr seq hne (by simp only [ibaqParams]; omega)
+  exact h
+
+/-- the map of `get_peptide_to_protein_map_from_params`, read per protein: the keys listed for a protein identifier
+    are exactly the (hash keys of the) peptides the configured digestion of a record with that identifier yields,
+    under one of the configured parameter sets, in one of the files; the identifiers are those of the records -/
+theorem per_protein_keys (files : List Fasta) (ps : List Params) (em : List Emission)
+    (h : emissions files ps = .ok em) (id : String) :
+    (id ∈ proteinIds em ↔ ∃ f ∈ files, ∃ p ∈ ps, ∃ rec ∈ records p f, rec.1 = id) ∧
+    (∀ x, x ∈ keysFor id em ↔
+      ∃ f ∈ files, ∃ p ∈ ps, ∃ rec ∈ records p f, rec.1 = id ∧
+        ∃ l, configuredDigest p rec.2 = .ok l ∧ x ∈ l.map (hashKey p)) ∧
+    (keysFor id em).Nodup ∧
+    (∀ kv, kv ∈ perProtein em ↔ kv.1 ∈ proteinIds em ∧ kv.2 = keysFor kv.1 em) := by
+  refine ⟨?_, ?_, dedup_nodup _, mem_perProtein em⟩
+  · rw [mem_proteinIds]
+    constructor
+    · rintro ⟨e, he, rfl⟩
+      obtain ⟨f, hf, p, hp, rec, hrec, l, _, rfl⟩ := (mem_emissions files ps em h e).mp he
+      exact ⟨f, hf, p, hp, rec, hrec, rfl⟩
+    · rintro ⟨f, hf, p, hp, rec, hrec, rfl⟩
+      -- the record was digested (the run succeeded), so it contributed
+      obtain ⟨a, ha⟩ := emitJob_ok_of_emissions files ps em h f hf p hp
+      obtain ⟨l, hl⟩ := emitJob_record_ok p f a ha rec hrec
+      exact ⟨(rec.1, l.map (hashKey p)), (mem_emissions files ps em h _).mpr ⟨f, hf, p, hp, rec, hrec, l, hl, rfl⟩, rfl⟩
+  · intro x
+    rw [mem_keysFor]
+    constructor
+    · rintro ⟨e, he, rfl, hx⟩
+      obtain ⟨f, hf, p, hp, rec, hrec, l, hl, rfl⟩ := (mem_emissions files ps em h e).mp he
+      exact ⟨f, hf, p, hp, rec, hrec, rfl, l, hl, hx⟩
+    · rintro ⟨f, hf, p, hp, rec, hrec, rfl, l, hl, hx⟩
+      exact ⟨(rec.1, l.map (hashKey p)), (mem_emissions files ps em h _).mpr ⟨f, hf, p, hp, rec, hrec, l, hl, rfl⟩,
+        rfl, hx⟩
+
+/-- `python -m picked_group_fdr.digest`, blocks in ANY order on one list of parameter objects: the last block of a
+    kind writes its file from the parameter objects as the blocks before it left them — the configured ones as long
+    as no iBAQ block ran, the iBAQ rewrite of them afterwards; the iBAQ file is always digested with the iBAQ
+    settings of the CONFIGURED objects.  So a map / Prosit file reflects the configuration iff no iBAQ block precedes it
+    (or the iBAQ rewrite changes nothing). -/
+theorem run_blocks_any_order (files : List Fasta) (pre post : List Block) (b : Block) (hb : b ∉ post)
+    (ps : List Params) (w0 : Written) (st : List Params × Written)
+    (h : runBlocks files (pre ++ b :: post) (ps, w0) = .ok st) :
+    match b with
+    | .prosit => ∃ em, mapItems files (if Block.ibaq ∈ pre then ps.map ibaqParams else ps) = .ok em ∧
+        st.2.prosit = some (prositRows em)
+    | .map => ∃ em, mapItems files (if Block.ibaq ∈ pre then ps.map ibaqParams else ps) = .ok em ∧
+        st.2.map = some (perProtein em)
+    | .ibaq => ∃ em, mapItems files (ps.map ibaqParams) = .ok em ∧ st.2.ibaq = some (ibaqCounts em) :=
+  runBlocks_block files pre post b hb ps w0 st h
+
+/-- `digest.main` with each output option alone and in every combination (its blocks run in the order Prosit input,
+    peptide-protein map, iBAQ map): every file that is requested is written from the CONFIGURED parameter objects —
+    the map lists per protein the keys of `per_protein_keys` under the configured sets, the Prosit input the valid
+    ones among them, the iBAQ map the numbers under the iBAQ settings of the configured sets — and a file that is not
+    requested is not written; in particular what one file holds does not depend on which others are requested. -/
+theorem cli_main_written (o : CliOpts) (files : List Fasta) (wp wm wi : Bool) (w : Written)
+    (h : cliMain o files wp wm wi = .ok w) :
+    ∃ ps, paramsList (argLists o) = .ok ps ∧
+      (if wp then ∃ em, emissions files ps = .ok em ∧ w.prosit = some (prositRows em) else w.prosit = none) ∧
+      (if wm then ∃ em, emissions files ps = .ok em ∧ w.map = some (perProtein em) else w.map = none) ∧
+      (if wi then ∃ em, emissions files (ps.map ibaqParams) = .ok em ∧ w.ibaq = some (ibaqCounts em)
+       else w.ibaq = none) := by
+  unfold cliMain at h
+  cases hps : paramsList (argLists o) with
+  | error e => rw [hps] at h; cases h
+  | ok ps =>
+    rw [hps] at h
+    simp only at h
+    cases hrun : runBlocks files (mainBlocks wp wm wi) (ps, {}) with
+    | error e => rw [hrun] at h; cases h
+    | ok st =>
+      rw [hrun] at h
+      injection h with h
+      subst h
+      obtain ⟨u1, u2, u3⟩ := runBlocks_untouched files _ _ _ hrun
+      refine ⟨ps, rfl, ?_, ?_, ?_⟩
+      · cases wp
+        · simp only [Bool.false_eq_true, if_false]
+          exact u1 (by cases wm <;> cases wi <;> decide)
+        · simp only [if_true]
+          rw [mainBlocks_prosit] at hrun
+          obtain ⟨em, hem, hw⟩ := runBlocks_block files [] _ .prosit (by cases wm <;> cases wi <;> decide) ps {} st hrun
+          exact ⟨em, (mapItems_ok _ _ _ (by simpa [paramsAfter] using hem)).1, hw⟩
+      · cases wm
+        · simp only [Bool.false_eq_true, if_false]
+          exact u2 (by cases wp <;> cases wi <;> decide)
+        · simp only [if_true]
+          rw [mainBlocks_map] at hrun
+          obtain ⟨em, hem, hw⟩ := runBlocks_block files _ _ .map (by cases wi <;> decide) ps {} st hrun
+          have hpa : paramsAfter ps (if wp = true then [Block.prosit] else []) = ps := by
+            cases wp <;> simp [paramsAfter]
+          rw [hpa] at hem
+          exact ⟨em, (mapItems_ok _ _ _ hem).1, hw⟩
+      · cases wi
+        · simp only [Bool.false_eq_true, if_false]
+          exact u3 (by cases wp <;> cases wm <;> decide)
+        · simp only [if_true]
+          rw [mainBlocks_ibaq] at hrun
+          obtain ⟨em, hem, hw⟩ := runBlocks_block files _ [] .ibaq (by decide) ps {} st hrun
+          exact ⟨em, (mapItems_ok _ _ _ hem).1, hw⟩
+
+/-- "the others must not be affected by it being requested": two invocations with the same options and files that
+    both ask for a file write the same content into it, whatever else each of them is asked for -/
+theorem cli_file_independent_of_other_outputs (o : CliOpts) (files : List Fasta) (wp wm wi wp' wm' wi' : Bool)
+    (w w' : Written) (h : cliMain o files wp wm wi = .ok w) (h' : cliMain o files wp' wm' wi' = .ok w') :
+    (wp = true → wp' = true → w.prosit = w'.prosit) ∧ (wm = true → wm' = true → w.map = w'.map) ∧
+    (wi = true → wi' = true → w.ibaq = w'.ibaq) := by
+  obtain ⟨ps, hps, c1, c2, c3⟩ := cli_main_written o files wp wm wi w h
+  obtain ⟨ps', hps', c1', c2', c3'⟩ := cli_main_written o files wp' wm' wi' w' h'
+  rw [hps] at hps'
+  injection hps' with hps'
+  subst hps'
+  refine ⟨?_, ?_, ?_⟩
+  · rintro rfl rfl
+    simp only [if_true] at c1 c1'
+    obtain ⟨em, hem, hw⟩ := c1
+    obtain ⟨em', hem', hw'⟩ := c1'
+    rw [hem] at hem'; injection hem' with hem'; subst hem'
+    rw [hw, hw']
+  · rintro rfl rfl
+    simp only [if_true] at c2 c2'
+    obtain ⟨em, hem, hw⟩ := c2
+    obtain ⟨em', hem', hw'⟩ := c2'
+    rw [hem] at hem'; injection hem' with hem'; subst hem'
+    rw [hw, hw']
+  · rintro rfl rfl
+    simp only [if_true] at c3 c3'
+    obtain ⟨em, hem, hw⟩ := c3
+    obtain ⟨em', hem', hw'⟩ := c3'
+    rw [hem] at hem'; injection hem' with hem'; subst hem'
+    rw [hw, hw']
+
 /-! Non-vacuity: concrete inputs.  `MAKAAK` with trypsin, window 1–50, budget 0, Met cleavage on:
 the declarative rule allows `AK` (cut positions 1 = Met site, 3 = after K) and the executable model yields it;
 the lys-n protein `MK` (site behind the Met is enzymatic) in semi mode with budget 0 yields `M`, `K` but not `MK`. -/
@@ -175,5 +474,50 @@ example : Valid .semi lysN 1 3 0 true ['M', 'K'] 0 1 :=
 example : ¬ Valid .semi lysN 1 3 0 true ['M', 'K'] 0 2 := fun h => absurd (h.budget (by decide)) (by decide)
 
 example : Site trypsin ['M', 'A', 'K', 'A', 'A', 'K'] 3 := by decide
+
+/-! Non-vacuity of the configuration theorems: a command line `--enzyme trypsin --min-length 2 --cleavages 1
+--fasta_contains_decoys` on the protein `MAKCCCCCKAAR`, all three outputs requested — the map holds the peptides with
+at most ONE missed cleavage from length 2 (the configured values, not the defaults 7 / 2), the iBAQ number is 1
+(`CCCCCK`); with `--cleavages 0` no listed peptide spans a site; had the iBAQ block run BEFORE the map block, the map
+would hold `CCCCCK` only. -/
+
+private def demoProt : Fasta := [("P1", ['M', 'A', 'K', 'C', 'C', 'C', 'C', 'C', 'K', 'A', 'A', 'R'])]
+private def demoOpts (mc : Nat) : CliOpts :=
+  { enzyme := some ["trypsin"], minLength := some [2], cleavages := some [mc], containsDecoys := true }
+
+example : (mkParams { cleavages := some 0 }).mc = 0 ∧ (mkParams {}).mc = cleavagesDefault ∧
+    (mkParams { minLength := some 0 }).minL = 0 ∧ (mkParams { enzyme := some "no_enzyme", digestion := some "full" }).digestion = "none" :=
+  ⟨rfl, rfl, rfl, by decide⟩
+
+example : paramsList (argLists { enzyme := some ["trypsin", "lys-n"], cleavages := some [0], minLength := some [1, 2] }) =
+    .ok [mkParams { enzyme := some "trypsin", digestion := some digestionDefault, minLength := some 1,
+                    maxLength := some maxPeplenDefault, cleavages := some 0, specialAas := some specialAasDefault,
+                    containsDecoys := some false },
+         mkParams { enzyme := some "lys-n", digestion := some digestionDefault, minLength := some 2,
+                    maxLength := some maxPeplenDefault, cleavages := some 0, specialAas := some specialAasDefault,
+                    containsDecoys := some false }] := rfl
+
+example : paramsList (argLists { enzyme := some ["trypsin", "lys-n"], cleavages := some [0, 1, 2] }) =
+    .error .unequalLength := rfl
+
+example : cliMain (demoOpts 1) [demoProt] true true true =
+    .ok { prosit := some [(['M', 'A', 'K'], "P1"), (['A', 'K'], "P1"),
+                          (['M', 'A', 'K', 'C', 'C', 'C', 'C', 'C', 'K'], "P1"),
+                          (['A', 'K', 'C', 'C', 'C', 'C', 'C', 'K'], "P1"), (['C', 'C', 'C', 'C', 'C', 'K'], "P1"),
+                          (['C', 'C', 'C', 'C', 'C', 'K', 'A', 'A', 'R'], "P1"), (['A', 'A', 'R'], "P1")],
+          map := some [("P1", [['M', 'A', 'K'], ['A', 'K'], ['M', 'A', 'K', 'C', 'C', 'C', 'C', 'C', 'K'],
+                               ['A', 'K', 'C', 'C', 'C', 'C', 'C', 'K'], ['C', 'C', 'C', 'C', 'C', 'K'],
+                               ['C', 'C', 'C', 'C', 'C', 'K', 'A', 'A', 'R'], ['A', 'A', 'R']])],
+          ibaq := some [("P1", 1)] } := by rfl
+
+example : cliMain (demoOpts 0) [demoProt] false true false =
+    .ok { map := some [("P1", [['M', 'A', 'K'], ['A', 'K'], ['C', 'C', 'C', 'C', 'C', 'K'], ['A', 'A', 'R']])] } := by
+  rfl
+
+/-- the order of the blocks in `main` is load-bearing: iBAQ block first, and the map is digested with the iBAQ settings -/
+example : (match runBlocks [demoProt] [.ibaq, .map]
+      ([mkParams { enzyme := some "trypsin", minLength := some 2, cleavages := some 1, containsDecoys := some true }], {}) with
+    | .ok st => st.2.map
+    | .error _ => none) = some [("P1", [['C', 'C', 'C', 'C', 'C', 'K']])] := by decide +kernel
 
 end PgFdr.C08
